@@ -694,6 +694,8 @@ func c15(c *core.Check) {
 	}
 	r3.Cond(nBad == 0, "module scan for nondeterminism sources", "-", "none found", fmt.Sprintf("%d found", nBad))
 
+	c15Snapshots(c, eng)
+
 	// ---- R4 direct stores to globals outside init
 	r4 := c.Rule("R4", "no direct assignment to a package-level variable of the module outside package initialisation (logger configuration excepted)", 1)
 	nSt := 0
@@ -868,3 +870,157 @@ func c15GridNamesCopies(p *core.Prog, eng *core.EffectsEngine, r *core.Rule) {
 		r.OK(key, p.Pos(fn.Pos()), fmt.Sprintf("%d appended values: the shared ones are all under an index%%2 != 0 test", n))
 	}
 }
+
+// c15Snapshots: a computation that is stored to be run again later must not see state that keeps changing meanwhile.
+func c15Snapshots(c *core.Check, eng *core.EffectsEngine) {
+	p := c.Prog
+	r := c.Rule("R5", "re-evaluation closures take snapshots: every closure of type tree.ParseFunc (stored in the target collector and called again, in map iteration order, when a target or counter becomes known) captures slices and maps only as fresh copies made in the enclosing function — never a parameter or a re-slice of one, whose later changes (the running quote depth) would make the re-evaluation depend on when it runs", 3)
+	n := 0
+	for _, fn := range p.ModFuncs {
+		fn := fn
+		core.Instrs(fn, func(in ssa.Instruction) {
+			mc, ok := in.(*ssa.MakeClosure)
+			if !ok {
+				return
+			}
+			cl := mc.Fn.(*ssa.Function)
+			// is the closure used as a tree.ParseFunc?
+			isParse := false
+			if refs := mc.Referrers(); refs != nil {
+				for _, ref := range *refs {
+					switch x := ref.(type) {
+					case *ssa.ChangeType:
+						if strings.HasSuffix(x.Type().String(), "tree.ParseFunc") {
+							isParse = true
+						}
+					case *ssa.Store:
+						if pt, ok := x.Addr.Type().Underlying().(*types.Pointer); ok && strings.HasSuffix(pt.Elem().String(), "tree.ParseFunc") {
+							isParse = true
+						}
+					case *ssa.Call:
+						if callee := x.Call.StaticCallee(); callee != nil {
+							for i, a := range x.Call.Args {
+								if a == ssa.Value(mc) && i < len(callee.Params) && strings.HasSuffix(callee.Params[i].Type().String(), "tree.ParseFunc") {
+									isParse = true
+								}
+							}
+						}
+					}
+				}
+			}
+			// a closure stored in a local that is later passed as ParseFunc: the local has the func type; accept by signature
+			if !isParse {
+				sig := cl.Signature
+				if sig.Params().Len() == 1 && strings.HasSuffix(sig.Params().At(0).Type().String(), "tree.CounterValues") && sig.Results().Len() == 0 {
+					isParse = true
+				}
+			}
+			if !isParse {
+				return
+			}
+			n++
+			for i, b := range mc.Bindings {
+				fv := cl.FreeVars[i]
+				t := b.Type()
+				byRef := false
+				if pt, ok := t.Underlying().(*types.Pointer); ok {
+					if _, isAlloc := b.(*ssa.Alloc); isAlloc {
+						t = pt.Elem()
+						byRef = true
+					}
+				}
+				switch t.Underlying().(type) {
+				case *types.Slice, *types.Map:
+				default:
+					continue
+				}
+				key := core.FuncName(fn) + " | " + cl.Name() + " captures " + fv.Name()
+				var vals []ssa.Value
+				if byRef {
+					vals = core.StoresTo(b)
+				} else {
+					vals = []ssa.Value{b}
+				}
+				bad := ""
+				for _, v := range vals {
+					why, par := notFresh(v, 0)
+					if why == "" {
+						continue
+					}
+					if par != nil {
+						// a parameter nobody writes through (declared values, the counter style table) can be shared
+						idx := -1
+						for k, q := range fn.Params {
+							if q == par {
+								idx = k
+							}
+						}
+						if idx >= 0 && len(eng.ParamWrites(fn, idx)) == 0 {
+							continue
+						}
+						why += ", which is written through while the content is computed"
+					}
+					bad = why
+				}
+				at := mc.Pos()
+				if !at.IsValid() {
+					at = cl.Pos()
+				}
+				r.Cond(bad == "", key, p.Pos(at), "a fresh copy made in the enclosing function", "the closure keeps "+bad+": the value it sees when it is run again depends on what happened to that memory in between")
+			}
+		})
+	}
+	if n == 0 {
+		r.Anchor("closures of type tree.ParseFunc")
+	}
+}
+
+// notFresh explains why a slice/map value is not a fresh allocation of the current function ("" when it is); when
+// the value is (a re-slice of) a parameter, the parameter is returned too.
+func notFresh(v ssa.Value, depth int) (string, *ssa.Parameter) {
+	if depth > 6 {
+		return "a value of unknown origin", nil
+	}
+	switch x := v.(type) {
+	case *ssa.MakeSlice, *ssa.MakeMap:
+		return "", nil
+	case *ssa.Const:
+		return "", nil // nil
+	case *ssa.Slice:
+		return notFresh(x.X, depth+1)
+	case *ssa.Phi:
+		for _, e := range x.Edges {
+			if why, par := notFresh(e, depth+1); why != "" {
+				return why, par
+			}
+		}
+		return "", nil
+	case *ssa.Call:
+		if b, ok := x.Call.Value.(*ssa.Builtin); ok && b.Name() == "append" {
+			return notFresh(x.Call.Args[0], depth+1)
+		}
+		if callee := x.Call.StaticCallee(); callee != nil && (callee.Name() == "Copy" || callee.Name() == "copy") {
+			return "", nil
+		}
+		if x.Call.IsInvoke() && x.Call.Method.Name() == "Copy" {
+			return "", nil
+		}
+		return "the result of " + x.Call.String(), nil
+	case *ssa.Parameter:
+		return "the parameter " + x.Name() + " (memory of the caller)", x
+	case *ssa.UnOp:
+		if al, ok := x.X.(*ssa.Alloc); ok {
+			for _, st := range StoresToAlloc(al) {
+				if why, par := notFresh(st, depth+1); why != "" {
+					return why, par
+				}
+			}
+			return "", nil
+		}
+		return "memory loaded from " + x.X.Name(), nil
+	}
+	return "a value of unknown origin (" + v.Name() + ")", nil
+}
+
+// StoresToAlloc lists the values stored into a local cell.
+func StoresToAlloc(al *ssa.Alloc) []ssa.Value { return core.StoresTo(al) }
